@@ -695,7 +695,7 @@ theorem Inv.handshake {P : Params} (hv : P.v = repaired) (httl : 0 < P.ttl) {S :
             simp only [stepOk, Bool.true_and, hdead, not_false_eq_true, decide_true, Bool.and_true,
               Bool.or_eq_true, decide_eq_true_eq]
             exact hfound
-          simp only [hx0, decide_false, Bool.not_true, Bool.or_false, Bool.false_eq_true, if_false, specStep, hr,
+          simp only [hx0, decide_false, Bool.or_false, Bool.false_eq_true, if_false, specStep, hr,
             Bool.true_and, gt_iff_lt, hx, decide_true, if_true]
           -- the registering branch
           have hn := h.nodeOk c.node
@@ -747,7 +747,7 @@ theorem Inv.handshakeTunnel {P : Params} {S : SpecSt} {M : St} (h : Inv S M) (c 
   unfold handleHandshake
   simp only [specStep]
   by_cases hnf : c ∉ (M.nodes c.node).ctrl ∧ c ∉ (M.nodes c.node).conns
-  · simp only [hnf, and_self, if_true]; exact h
+  · simp only [hnf, and_self]; exact h
   · simp only [hnf, if_false]
     have hfound : c ∈ (M.nodes c.node).ctrl ∨ c ∈ (M.nodes c.node).conns := by
       by_cases h1 : c ∈ (M.nodes c.node).ctrl
